@@ -7,7 +7,7 @@ CONSTANT MaxAdds
 McBuiltinIf == <<"logger", "iterator">>
 McFixedSize(id) == CASE id = 1 -> 4 [] id = 30 -> 16 [] OTHER -> 0
 McFixedManaged(id) == IF id = 30 THEN 1 ELSE 0
-McProbe == {0, 1, 2, 8, 9, 10, 11, 12, 13, 14, 20, 21, 22, 23, 30, 40, 41, 42, 43, 50}
+McProbe == {0, 1, 2, 8, 9, 10, 11, 12, 13, 14, 20, 21, 22, 23, 24, 25, 30, 40, 41, 42, 43, 44, 45, 50}
 Bound == Cardinality(DOMAIN reg) - Cardinality(DOMAIN BuiltinReg) <= MaxAdds
 View == <<reg, ifs, dyn, metaC, genC>>
 =============================================================================
